@@ -19,6 +19,12 @@ theorem verdict : (classify Generated.factsC05).Sound (Full (cfgOf Generated.fac
 #print axioms not_holds_resurrect
 #print axioms not_holds_incfail
 #print axioms findings_backed
+#print axioms holds_multi_partial
+#print axioms pokstate_close
+#print axioms Hv.Data.close_view_pok
+#print axioms Hv.Data.pok_summon
+#print axioms Hv.Data.pok_save
+#print axioms Hv.Data.pok_delete
 #print axioms fail_keeps_recs
 #print axioms not_fail_keeps_recs
 #print axioms recreate_stays_filed
